@@ -334,7 +334,7 @@ func checkC02(res *Result) {
 		consts := map[string]bool{}
 		for _, b := range f.Blocks {
 			for _, ins := range b.Instrs {
-				if bo, ok := ins.(*ssa.BinOp); ok && bo.Op == token.EQL {
+				if bo, ok := ins.(*ssa.BinOp); ok && (bo.Op == token.EQL || bo.Op == token.NEQ) {
 					for _, o := range []ssa.Value{bo.X, bo.Y} {
 						if s, ok := stringConst(o); ok {
 							consts[s] = true
